@@ -67,7 +67,7 @@ func vGenuine4(p []byte, ihl, qihl int, pr []byte) bool {
 	isICMP := V.All(p[0]>>4 == 4, p[9] == 1)
 	// echo reply on the probe's flow
 	reply := V.All(isICMP, p[o] == 0, V.BytesEq(p[o+4:o+8], pr[24:28]), V.BytesEq(p[12:16], pr[16:20]))
-	if len(p) < o+8+qihl*4+8 {
+	if qihl < 5 || len(p) < o+8+qihl*4+8 {
 		return reply
 	}
 	q := p[o+8:]
